@@ -84,7 +84,8 @@ def main():
         dest = os.path.join('/verif/seeded', sid)
         os.makedirs(dest, exist_ok=True)
         for f in ('patch.diff', 'demo.py'):
-            shutil.copy(os.path.join(src, f), os.path.join(dest, f))
+            if os.path.abspath(os.path.join(src, f)) != os.path.abspath(os.path.join(dest, f)):
+                shutil.copy(os.path.join(src, f), os.path.join(dest, f))
         meta = {}
         if os.path.exists(os.path.join(src, 'meta.json')):
             try:
